@@ -4,10 +4,12 @@ CONSTANTS MaxOps = 2
   MaxErr = 3
   GScales <- ScalesAll
   Targets <- TargetsAll
+  Share = FALSE
   Patterns = {1, 2}
 VIEW view
 PROPERTY ScaleExact
 PROPERTY UnknownScaleRaises
 PROPERTY GetScalePure
 PROPERTY RoundTrip
+PROPERTY TwinUntouched
 CHECK_DEADLOCK FALSE
